@@ -203,10 +203,58 @@ def nested_crossproduct_over_inner_scatter(doc) -> list[str]:
     return found
 
 
+def valuefrom_with_constant_input_in_repeated_subworkflow(doc) -> list[str]:
+    """a step inside a scattered / looped sub-workflow that has both a valueFrom input and a constant-only
+    (`default` without source) input"""
+    found = []
+
+    def walk(wf, path, repeated):
+        for sid, st in wf.get("steps", {}).items():
+            ents = [_entry(e) for e in st.get("in", {}).values()]
+            if repeated and any("valueFrom" in e for e in ents) and any(not _aslist(e.get("source")) for e in ents):
+                found.append(f"{path}/{sid}")
+            run = st.get("run")
+            if isinstance(run, dict) and run.get("class") == "Workflow":
+                walk(run, f"{path}/{sid}", repeated or "scatter" in st or "cwltool:Loop" in st.get("requirements", {}))
+
+    if doc.get("class") == "Workflow":
+        walk(doc, "", False)
+    return found
+
+
+def loop_input_valuefrom_in_repeated_subworkflow(doc) -> list[str]:
+    """a loop step with valueFrom on one of its `in` entries or on a fed-back loop variable, inside a sub-workflow
+    that is scattered or looped"""
+    found = []
+
+    def walk(wf, path, repeated):
+        for sid, st in wf.get("steps", {}).items():
+            loop = "cwltool:Loop" in st.get("requirements", {})
+            if loop and repeated and (
+                    any("valueFrom" in _entry(e) for e in st.get("in", {}).values())
+                    or any(isinstance(v, dict) and "valueFrom" in v and "loopSource" in v
+                           for v in st["requirements"]["cwltool:Loop"].get("loop", {}).values())):
+                found.append(f"{path}/{sid}")
+            run = st.get("run")
+            if isinstance(run, dict) and run.get("class") == "Workflow":
+                walk(run, f"{path}/{sid}", repeated or loop or "scatter" in st)
+
+    if doc.get("class") == "Workflow":
+        walk(doc, "", False)
+    return found
+
+
+def conditional_scatter_steps(doc) -> list[str]:
+    return [f"{path}/{sid}" for path, wf in _workflows(doc) for sid, st in wf.get("steps", {}).items()
+            if "scatter" in st and "when" in st]
+
+
 def kind_for(pid: str, case: dict, symptom: str, detail: str) -> str:
     """Stable root-cause bucket: a recorded shape + its symptom, else the bare symptom."""
     doc = case["doc"]
     if doc.get("class") == "Workflow":
+        if symptom == "sf-hangs" and loop_input_valuefrom_in_repeated_subworkflow(doc):
+            return f"{pid}:loop-valueFrom-in-repeated-subworkflow-hangs"
         if symptom == "sf-hangs" and loops_fed_by_conditional(doc):
             return f"{pid}:loop-after-all-false-conditional-hangs"
         if symptom in ("sf-fails-only", "sf-hangs") and unused_steps(doc):
@@ -223,8 +271,12 @@ def kind_for(pid: str, case: dict, symptom: str, detail: str) -> str:
             return f"{pid}:pickValue-single-source-step-input-ignored"
         if symptom in ("sf-fails-only", "output-mismatch") and nested_array_defaults(doc):
             return f"{pid}:nested-array-default"
+        if symptom in ("sf-hangs", "output-mismatch", "sf-fails-only") and valuefrom_with_constant_input_in_repeated_subworkflow(doc):
+            return f"{pid}:valueFrom-with-constant-input-in-repeated-subworkflow"
         if symptom in ("sf-hangs", "output-mismatch") and constant_steps_in_subworkflows(doc):
             return f"{pid}:constant-step-in-subworkflow-runs-once"
+        if symptom == "sf-fails-only" and "`recoverable` property can't be changed" in detail and conditional_scatter_steps(doc):
+            return f"{pid}:default-on-array-with-skipped-nulls"
         if symptom in ("sf-fails-only", "output-mismatch") and nested_crossproduct_over_inner_scatter(doc):
             return f"{pid}:nested-crossproduct-over-inner-scatter"
         if symptom == "output-mismatch" and nested_crossproduct_steps(doc) and "[]" in detail:
@@ -385,6 +437,17 @@ def known_shape_cases(seed: int = 1) -> list[dict]:
                                                             "outputMethod": "last"}}}}}
     add("constant-step-in-subworkflow", cl, {"a": a})
 
+    # --- valueFrom + a constant-only input on one step of a scattered sub-workflow: the step is skipped
+    vc_inner = {"class": "Workflow", "inputs": {"k": {"type": "int"}, "x": {"type": "string"}},
+                "outputs": {"o": {"type": "int", "outputSource": "s/o"}},
+                "steps": {"s": {"run": ets["add"]["doc"],
+                                "in": {"a": {"source": "x", "valueFrom": "$(self.length)"}, "b": {"default": 29}},
+                                "out": ["o"]}}}
+    vc = {"class": "Workflow", "inputs": {"ks": {"type": _arr("int")}, "x": {"type": "string"}},
+          "outputs": {"o": {"type": _arr("int"), "outputSource": "w/o"}},
+          "steps": {"w": {"run": vc_inner, "in": {"k": {"source": "ks"}, "x": {"source": "x"}}, "out": ["o"], "scatter": "k"}}}
+    add("valueFrom-with-constant-input-in-repeated-subworkflow", vc, {"ks": [1, 2, a], "x": "abc"})
+
     # --- nested_crossproduct with an empty scatter array
     nc = {"class": "Workflow", "inputs": {"xs": {"type": _arr("int")}, "ys": {"type": _arr("int")}},
           "outputs": {"o": {"type": _arr(_arr("int")), "outputSource": "s/o"}},
@@ -406,6 +469,55 @@ def known_shape_cases(seed: int = 1) -> list[dict]:
                            "out": ["o", "p"], "scatter": ["k", "j"], "scatterMethod": "nested_crossproduct"}}}
     add("nested-crossproduct-over-inner-scatter", ncs, {"ks": [1, 2], "js": [3], "xs": [a]})
     add("nested-crossproduct-over-inner-scatter", ncs, {"ks": [1, 2], "js": [3, 4], "xs": []})
+
+    # --- a loop step with valueFrom on an `in` entry inside a scattered sub-workflow (hang: thorough tier only)
+    lv_inner = {"class": "Workflow", "inputs": {"i0": {"type": "string"}},
+                "outputs": {"o0": {"type": _arr("int"), "outputSource": "s0/o"}},
+                "steps": {"s0": {"run": ets["add"]["doc"],
+                                 "in": {"a": {"source": "i0", "valueFrom": "$(self.length)"}, "b": {"default": 9},
+                                        "cnt": {"default": 0}},
+                                 "out": ["o"],
+                                 "requirements": {"cwltool:Loop": {"loopWhen": "$(inputs.cnt < 2)",
+                                                                   "loop": {"cnt": {"valueFrom": "$(inputs.cnt + 1)"}, "a": "o"},
+                                                                   "outputMethod": "all"}}}}}
+    lv = {"class": "Workflow", "inputs": {"ss": {"type": _arr("string")}},
+          "outputs": {"o": {"type": _arr(_arr("int")), "outputSource": "w/o0"}},
+          "steps": {"w": {"run": lv_inner, "in": {"i0": {"source": "ss"}}, "out": ["o0"], "scatter": "i0"}}}
+    add("loop-valueFrom-in-repeated-subworkflow", lv, {"ss": ["x y"]})
+    two = ets["two"]["doc"]
+    lv2_inner = {"class": "Workflow", "inputs": {"i0": {"type": _arr("int")}},
+                 "outputs": {"o0": {"type": _arr("int"), "outputSource": "s0/o1"}},
+                 "steps": {"s0": {"run": two, "in": {"a": {"default": 18}, "cnt": {"default": 1}, "dep": {"source": "i0"}},
+                                  "out": ["o1"],
+                                  "requirements": {"cwltool:Loop": {
+                                      "loopWhen": "$(inputs.cnt < 4)",
+                                      "loop": {"cnt": {"valueFrom": "$(inputs.cnt + 1)"},
+                                               "a": {"loopSource": "o1", "valueFrom": "${ return self - 3; }"}},
+                                      "outputMethod": "all"}}}}}
+    lv2 = {"class": "Workflow", "inputs": {"n": {"type": "int"}},
+           "outputs": {"o0": {"type": _arr(_arr("int")), "outputSource": "w/o0"}},
+           "steps": {"w": {"run": lv2_inner, "in": {"i0": {"default": []}, "cnt": {"default": 0}}, "out": ["o0"],
+                           "requirements": {"cwltool:Loop": {"loopWhen": "$(inputs.cnt < 3)",
+                                                             "loop": {"cnt": {"valueFrom": "$(inputs.cnt + 1)"}},
+                                                             "outputMethod": "all"}}}}}
+    add("loop-valueFrom-in-repeated-subworkflow", lv2, {"n": a})
+
+    # --- the array of a scatter+when step (nulls for skipped jobs) connected to an input that has a `default`
+    cntnn = ets["countnn"]["doc"]
+    dn = {"class": "Workflow", "inputs": {"xs": {"type": _arr("int")}},
+          "outputs": {"o": {"type": "int", "outputSource": "t/o"}},
+          "steps": {"s": {"run": inc, "in": {"a": {"source": "xs"}}, "out": ["o"], "scatter": "a", "when": "$(inputs.a > 1)"},
+                    "t": {"run": cntnn, "in": {"xs": {"source": "s/o", "default": [1]}}, "out": ["o"]}}}
+    add("default-on-array-with-skipped-nulls", dn, {"xs": [1, 2, a]})
+    inner_opt = {"class": "Workflow", "inputs": {"xs": {"type": ["null", _arr(["null", "int"])]}},
+                 "outputs": {"o": {"type": "int", "outputSource": "t/o"}},
+                 "steps": {"t": {"run": ets["isnull"]["doc"], "in": {"x": {"default": 1}, "dep": {"source": "xs"}}, "out": ["o"]}}}
+    inner_opt["outputs"]["o"]["type"] = "boolean"
+    dn2 = {"class": "Workflow", "inputs": {"xs": {"type": _arr("int")}},
+           "outputs": {"o": {"type": "boolean", "outputSource": "w/o"}},
+           "steps": {"s": {"run": inc, "in": {"a": {"source": "xs"}}, "out": ["o"], "scatter": "a", "when": "$(inputs.a > 1)"},
+                     "w": {"run": inner_opt, "in": {"xs": {"source": "s/o"}}, "out": ["o"]}}}
+    add("default-on-array-with-skipped-nulls", dn2, {"xs": [1, 2, a]})
 
     # --- two workflow outputs with the same outputSource
     so = {"class": "Workflow", "inputs": {"a": {"type": "int"}},
